@@ -272,7 +272,7 @@ func (wf *WALFileType) readTGData() (tgID int64, tgSerialized []byte, err error)
 	}
 	tgLen := io.ToInt64(tgLenSerialized)
 
-	if !sanityCheckValue(wf.FilePtr, tgLen) {
+	if tgLen < tgIDBytes || !sanityCheckValue(wf.FilePtr, tgLen) {
 		return 0, nil, errors.New(io.GetCallerFileContext(0) + fmt.Sprintf(": Insane TG Length: %d", tgLen))
 	}
 
@@ -282,7 +282,7 @@ func (wf *WALFileType) readTGData() (tgID int64, tgSerialized []byte, err error)
 	if int64(n) != tgLen || err != nil {
 		return 0, nil, wal.ShortReadError(io.GetCallerFileContext(0) + ":Reading Data")
 	}
-	tgID = io.ToInt64(tgSerialized[:tgIDBytes-1])
+	tgID = io.ToInt64(tgSerialized[:tgIDBytes])
 
 	// Read the checksum
 	checkBuf := make([]byte, checkSumBytes)
